@@ -99,7 +99,7 @@ func TestC03(t *testing.T) {
 		cfg := walkCfg{node: genNodeCfg(ch), steps: rapid.IntRange(10, 50).Draw(rt, "steps"),
 			weights: []int{0, 0, 0, 0, 1, 1, 1, 2, 4, 4, 4, 5, 7}}
 		if err := contentCase("C03", ch, cfg, rec); err != nil {
-			rt.Fatalf("%v", err)
+			fatal(rt, "%v", err)
 		}
 	})
 }
@@ -112,7 +112,7 @@ func TestC09(t *testing.T) {
 		cfg := walkCfg{node: genNodeCfg(ch), steps: rapid.IntRange(10, 50).Draw(rt, "steps"), beyond: true,
 			weights: []int{0, 0, 0, 0, 1, 1, 1, 2, 4, 4, 4, 5, 7, 7, 7}}
 		if err := contentCase("C09", ch, cfg, rec); err != nil {
-			rt.Fatalf("%v", err)
+			fatal(rt, "%v", err)
 		}
 	})
 }
